@@ -5,6 +5,7 @@ import (
 	"math/rand"
 	"os"
 	"strings"
+	"sync/atomic"
 	"testing"
 
 	"github.com/bradenaw/juniper/chans"
@@ -151,16 +152,22 @@ func runReplicateBuf(t *testing.T, nd int, vals int, buf int) ([]Ev, bool, strin
 				close(d)
 			}
 		}()
+		var pend atomic.Int32 // sends the source has not accepted yet
 		for k := 1; k <= vals; k++ {
 			r.emit(Ev{"ev": "send", "i": 0, "v": k})
-			src <- k
+			pend.Add(1)
+			k := k
+			go func() { src <- k; pend.Add(-1) }()
 			synctest_wait()
-			r.emit(Ev{"ev": "q"})
+			r.emit(Ev{"ev": "q", "pendsend": int(pend.Load())})
+			if pend.Load() > 0 { // nobody reads the source any more: recorded; the value is taken back so that the run can end
+				<-src
+			}
 		}
 		r.emit(Ev{"ev": "closein", "i": 0})
 		close(src)
 		synctest_wait()
-		r.emit(Ev{"ev": "q"})
+		r.emit(Ev{"ev": "q", "pendsend": 0})
 	})
 }
 
